@@ -26,12 +26,21 @@ CFG = {
         "Leptos.Router.C14_optional_fallback_overmatch_witness",
         "Leptos.Router.C14_nested_optional_tuple_witness",
         "Leptos.Router.C14_build_then_match",
+        "Leptos.Router.C14_match_iff_flat_partial",
+        "Leptos.Router.C14_match_iff_flat_partial_holds",
+        "Leptos.Router.pass_simple",
+        "Leptos.Router.leaf_simple",
+        "Leptos.Router.patternTokens_simple",
+        "Leptos.Router.simple_eq_lenient",
+        "Leptos.Router.expandOptionals_eq_spec",
+        "Leptos.Router.test_partition",
+        "Leptos.Router.nested_partition",
     ],
     "harness_pkg": "hx-c14",
     "harness_bin": "c14",
     # n = number of random route sets; the small-scope route families (every 1- and 2-segment leaf, nested
     # pairs, sibling pairs, bases: 380 sets) and the deep exhaustive sets are always included
-    "n": {"quick": 200, "thorough": 1500},
+    "n": {"quick": 200, "thorough": 800},
     "trivial_tags": ["fam-leaf", "fam-nested", "fam-sib", "fam-base", "rnd", "deep", "nested", "siblings", "opt", "splat",
                      "param", "tupnest", "rootseg", "base", "static", "nohit"],
     "exhaustive": {"quick": True, "thorough": True},
@@ -39,7 +48,7 @@ CFG = {
             "7 parents x 38 children nested pairs, 36 sibling pairs, 4 bases x 5 leaves) + n seeded random trees "
             "(depth <= 3, <= 4 siblings, tuples nested to depth 2 with units, tuple and StaticVec containers, well-formed "
             "bases); paths: EXHAUSTIVE over the alphabet {/ a b e-acute %} up to length 4 after the leading slash for every "
-            "route set (6 thorough), up to length 7 (9 thorough) for the deep sets, plus seeded paths built from the set's own "
+            "route set (5 thorough), up to length 7 (8 thorough) for the deep sets, plus seeded paths built from the set's own "
             "flat routes and perturbed (inserted/removed characters, doubled and trailing slashes), plus build-then-match "
             "ops and direct segment tests incl. paths without a leading slash; a case = one route set x a block of 128 "
             "consecutive paths; non-trivial = the block contains a path the real router matches (or panics on), or a build op, "
@@ -57,7 +66,8 @@ CFG = {
                  "StaticPath::into_paths (one value per param)", "integrations/axum to_axum_path (joining rule only)"],
     "assumptions": ["request paths start with '/'", "well-formed route definitions: wildcard only as last segment of a leaf, static texts non-empty and '/'-free "
                     "(or with one leading '/', or a whole route \"\" / \"/\"), base \"\" or \"/x[/y]\"",
-                    "the general partial theorem over arbitrary optional-free route trees (C14_match_iff_flat_partial_general) is OPEN: tested on every case, not proved"],
+                    "C14_match_iff_flat_partial is proved for single leaf routes of plain static/param segments; the general partial statement over arbitrary optional-free "
+                    "route trees (C14_match_iff_flat_partial_general) is OPEN: evaluated on every generated case by the correspondence run, not proved"],
     "manifest": {
         "category": "proof",
         "text": "Lean 4 theorems over all paths/segment trees: matched++remaining=path for every segment kind, nested tuples and (optional-free-parent) nested routes; "
